@@ -78,7 +78,7 @@ Spline<K, G> Spline<K, G>::ConstantVelocity(const Tangent<G> & v, double T, cons
   if (T <= 0) {
     return Spline();
   } else {
-    Eigen::Matrix<double, Dof<G>, K> V = (T / 3) * v.replicate(1, K);
+    Eigen::Matrix<double, Dof<G>, K> V = (T / K) * v.replicate(1, K);
     return Spline(T, std::move(V), ga);
   }
 }
